@@ -229,6 +229,8 @@ pub enum Stmt {
     Goto(String),
     Gosub(String),
     Return,
+    /// RETURN label: ends the most recent GOSUB and continues at the label
+    ReturnTo(String),
     OnErrorGoto(Option<String>),
     Resume(ResumeKind),
     ResumeLabel(String),
